@@ -63,8 +63,7 @@ def callOp (j : Json) : R Json := do
   let defs ← getFuns j "defs"
   let name ← j.getObjValAs? String "name"
   let acts ← (← (← j.getObjVal? "actuals").getArr?).toList.mapM parseActual
-  if !knowFunction defs name then return Json.mkObj [("known", toJson false)]
-  match getDef defs name with
+  match resolve defs name with
   | none => return Json.mkObj [("known", toJson false)]
   | some df =>
     match callSite q df acts with
